@@ -544,6 +544,9 @@ class ModelMixin(ModelMixin2, ModelMixin3):
         if any(ch in tag for ch in '/[.*'):
             sym = st.new(ListE('findall', 0, None, None, tag, ordered=True, stages=('path',)))
             return [(Ref('list', sym), st)]
+        ov = (st.mon.get('findall_override') or {}).get((p.sym, tag))
+        if ov is not None and ov in st.heap:
+            return [(Ref('list', ov), st)]
         lo = self.min_count(pe, tag)
         hi = None
         if (p.sym, tag) in st.first and st.first[(p.sym, tag)] == 'ABSENT':
@@ -758,7 +761,10 @@ class ModelMixin(ModelMixin2, ModelMixin3):
     def attach(self, p: Ref, n: Ref, st: State):
         ne: ElemE = st.get(n.sym)
         st.put(n.sym, replace(ne, attached=True, parent=p.sym))
+        was_absent = ne.tag is not None and st.first.get((p.sym, ne.tag)) == 'ABSENT'
         self.invalidate_parent(p.sym, n.sym, st)
+        if was_absent:
+            st.first[(p.sym, ne.tag)] = n.sym        # the only child with that tag is now the first one
         st.lookups = {k: v for k, v in st.lookups.items() if k[0] != p.sym}
 
     def do_append(self, p: Ref, n: Val, st: State, node):
